@@ -108,10 +108,19 @@ def find_kill_point(d, argv, which):
     return None
 
 
+# large user texts: the md5 / copy code works in 4096-byte chunks and 64-byte blocks, so sizes around those boundaries matter
+B1 = b''.join(b'int  a%d ;\nint   f%d(int x){return x+%d;}\n' % (i, i, i) for i in range(330))
+B2 = b''.join(b'long   b%d=2 ;\nint g%d(int y){\nreturn y*2 ;}\n' % (i, i) for i in range(120))
+
+
 def run_history(ops):
-    """execute the history; returns (failures, stats)"""
+    """execute the history; returns (failures, stats).  A leading 'BIG' marker selects the large user texts."""
     fails = []
     m = Model()
+    big = bool(ops) and ops[0] == 'BIG'
+    if big:
+        ops = list(ops[1:])
+    U1, U2 = (B1, B2) if big else (globals()['U1'], globals()['U2'])
     F = f('A', U1)
     nruns = 0
     with run.TempDir() as top:
@@ -205,7 +214,7 @@ def do_histories(chunk):
             import traceback
             p.infra('history %r: %s' % (ops, traceback.format_exc()[-600:]))
             continue
-        p.case(('h',) + tuple(ops), nontrivial(ops), ['len:%d' % len(ops)])
+        p.case(('h',) + tuple(ops), nontrivial(ops), ['len:%d' % len([o for o in ops if o != 'BIG'])] + (['large-files'] if ops and ops[0] == 'BIG' else []))
         p.count('runs', st.get('runs', 0))
         if len(ops) >= 3 and hash(tuple(ops)) % 300 == 0:
             p.sample({'history': ['U1'] + list(ops)}, cap=1)
@@ -259,6 +268,11 @@ def main(ctx):
             if not any(o[0] in 'RO' for o in ops):
                 continue
             hs.append(list(ops))
+    # the same protocol with large files (md5 / copy loops work in chunks): all histories up to length 3
+    for n in range(1, 4):
+        for ops in itertools.product(OPS, repeat=n):
+            if any(o[0] in 'RO' for o in ops):
+                hs.append(['BIG'] + list(ops))
     random.Random(ctx.seed).shuffle(hs)
     for part in core.pmap(do_histories, core.chunks(hs, core.NPROC * 8)):
         ctx.merge(part)
